@@ -39,6 +39,8 @@ pub enum Op {
     Emit(Vec<u8>),
     Flush,
     Drop,
+    /// a read-only call on the sink (`stats()`): must not write anything
+    Query,
 }
 
 #[derive(Clone, Debug, PartialEq)]
@@ -347,6 +349,12 @@ impl FrameChecker {
             Op::Emit(m) => self.step_emit(m, s),
             Op::Flush => self.step_flush(s, false),
             Op::Drop => self.step_flush(s, true),
+            Op::Query => {
+                if let Some(a) = s.attempts.first() {
+                    return Err(self.viol("F4", "write-on-query", format!("a read-only call (stats) wrote {:?} to the socket", a.bytes.as_ref().map(|b| show(b)))));
+                }
+                Ok(Outcome::FlushEmpty)
+            }
         }
     }
 
